@@ -264,8 +264,11 @@ def run_gaf_side_padded(scratch, variant, tag, aligned=False):
 
 def write_graph(path, text):
     if path.endswith(".gz"):
-        with gzip.open(path, "wt") as f:
-            f.write(text)
+        # two gzip members (what `cat a.gz b.gz` or bgzip produce): a valid gzip file
+        data = text.encode()
+        cut = data.rfind(b"\n", 0, len(data) // 2) + 1
+        with open(path, "wb") as f:
+            f.write(gzip.compress(data[:cut]) + gzip.compress(data[cut:]))
     else:
         fw.write_text(path, text)
 
